@@ -274,6 +274,13 @@ func (c *Ctx) expanderHappyPathsUncached(fam *expFamily, fd *ast.FuncDecl) ([]sp
 		case svBin:
 			if x.op == token.NEQ {
 				if _, isNil := x.y.(svNil); isNil {
+					// a local that still holds the zero value of an interface / pointer type is nil
+					if z, isZero := x.x.(svZero); isZero && z.t != nil {
+						switch z.t.Underlying().(type) {
+						case *types.Interface, *types.Pointer:
+							return false, true
+						}
+					}
 					if isFamResult(x.x) && !mentionsErr(x.x) {
 						return true, true
 					}
@@ -317,6 +324,16 @@ func (c *Ctx) expanderHappyPathsUncached(fam *expFamily, fd *ast.FuncDecl) ([]sp
 		// (and leaf accessors: x.schemaOrNil() stands for the position it selects)
 		if len(c.staticCallees(f)) == 0 && sig.Results().Len() == 1 {
 			return true
+		}
+		// (and predicates over the element: isLeaf(&target) stands for the tests it makes)
+		if sig.Results().Len() == 1 && sig.Recv() == nil {
+			if b, isB := sig.Results().At(0).Type().Underlying().(*types.Basic); isB && b.Kind() == types.Bool {
+				for i := 0; i < sig.Params().Len(); i++ {
+					if isElementOrSchema(c, sig.Params().At(i).Type()) {
+						return true
+					}
+				}
+			}
 		}
 		return c.reaches(f, func(h *types.Func) bool { return h != f && fam.members[h] })
 	}, false, force)
@@ -544,40 +561,24 @@ func (c *Ctx) siblingValueTest(fam *expFamily, p spath, ncond int, pos []string,
 		if cd.loop {
 			continue
 		}
-		v := cd.v
-		for {
-			switch x := v.(type) {
-			case svNot:
-				v = x.x
+		for _, v := range condAtoms(cd.v) {
+			q, ok := c.posBelow(fam, v, target, 0)
+			if !ok || len(q) != len(pos) || q[len(q)-1] == pos[len(pos)-1] {
 				continue
-			case svBin:
-				if _, isK := x.y.(svConst); isK {
-					v = x.x
-					continue
-				}
-				if _, isK := x.x.(svConst); isK {
-					v = x.y
-					continue
+			}
+			same := true
+			for i := range parent {
+				if q[i] != parent[i] {
+					same = false
 				}
 			}
-			break
-		}
-		q, ok := c.posBelow(fam, v, target, 0)
-		if !ok || len(q) != len(pos) || q[len(q)-1] == pos[len(pos)-1] {
-			continue
-		}
-		same := true
-		for i := range parent {
-			if q[i] != parent[i] {
-				same = false
+			if same {
+				t := svString(cd.v)
+				if cd.neg {
+					t = "!(" + t + ")"
+				}
+				return t
 			}
-		}
-		if same {
-			t := svString(cd.v)
-			if cd.neg {
-				t = "!(" + t + ")"
-			}
-			return t
 		}
 	}
 	return ""
@@ -693,6 +694,188 @@ func ruleVisit(c *Ctx) {
 			c.ob(rule, "Schema."+p, vi.call.Pos(), true, "")
 		}
 	}
+	// ... and on every happy path: a path of the root schema expander that returns with success visits every
+	// position, unless it hands the whole schema on to another member of the family or was taken because the
+	// schema is itself a $ref (whose siblings are skipped by definition). A fast path that returns early on some
+	// other test (a primitive type, say) leaves the $refs below the positions it did not look at.
+	c.visitOnEveryPath(rule, fam, root, positions)
+}
+
+func (c *Ctx) visitOnEveryPath(rule string, fam *expFamily, root *types.Func, positions map[string]string) {
+	fd := c.decl(root)
+	if fd == nil {
+		return
+	}
+	paths, ok := c.expanderHappyPaths(fam, fd)
+	if !ok {
+		return // outside the fragment: the per-position obligations above stand alone
+	}
+	target := c.paramObj(fd, 0)
+	why := ""
+	pos := fd.Pos()
+	for _, p := range paths {
+		if len(p.rets) == 0 || why != "" {
+			continue
+		}
+		// delegation of the whole schema
+		if sc, isCall := p.rets[0].(svCall); isCall {
+			if g, isF := sc.callee.(*types.Func); isF && fam.members[g] {
+				continue
+			}
+		}
+		// the schema is a $ref (or the root reference): positive test of its own Ref
+		viaRef := false
+		for _, cd := range p.conds {
+			if cd.neg || cd.loop {
+				continue
+			}
+			svWalk(cd.v, func(x sval) {
+				sc, ok := x.(svCall)
+				if !ok || sc.recv == nil {
+					return
+				}
+				var q svPath
+				switch r := sc.recv.(type) {
+				case svPath:
+					q = r
+				case svAddr:
+					q = r.p
+				default:
+					return
+				}
+				if q.root != target {
+					return
+				}
+				for _, stp := range q.steps {
+					if stp == "Ref" {
+						viaRef = true
+					}
+				}
+			})
+		}
+		if viaRef {
+			continue
+		}
+		visited := map[string]bool{}
+		for _, e := range p.effs {
+			if e.kind != "call" || len(e.call.args) == 0 {
+				continue
+			}
+			g, isF := e.call.callee.(*types.Func)
+			if isF && !fam.schemaExp[g] && g.Pkg() == c.Types && c.decl(g) != nil {
+				// a helper that receives a reference to storage below the schema and expands it in place
+				gsig := g.Type().(*types.Signature)
+				for ai, a := range e.call.args {
+					if ai >= gsig.Params().Len() {
+						break
+					}
+					pt := gsig.Params().At(ai).Type()
+					if !isRefType(pt) || !containsSchema(pt, c.Types, 0) {
+						continue
+					}
+					q, okq := c.posBelow(fam, a, target, 0)
+					if !okq || len(q) == 0 {
+						continue
+					}
+					gfd := c.decl(g)
+					for sp := range c.schemaVisitsFrom(fam, gfd, c.paramObj(gfd, ai), 1) {
+						visited[joinPath(joinSteps(q), sp)] = true
+					}
+				}
+				continue
+			}
+			if !isF || !fam.schemaExp[g] {
+				continue
+			}
+			q, okq := c.posBelow(fam, e.call.args[0], target, 0)
+			if !okq {
+				continue
+			}
+			if len(q) == 0 {
+				for k := range c.schemaVisits(fam, g, 1) {
+					visited[k] = true
+				}
+				continue
+			}
+			visited[joinSteps(q)] = true
+		}
+		// a position that the path knows to be empty (its holder is nil, its collection has no element) has
+		// nothing to visit
+		emptyKnown := func(key string) bool {
+			isPrefix := func(q svPath) bool {
+				if q.root != target {
+					return false
+				}
+				var steps []string
+				for _, stp := range q.steps {
+					if stp != "*" {
+						steps = append(steps, stp)
+					}
+				}
+				j := joinSteps(steps)
+				return j != "" && (key == j || strings.HasPrefix(key, j+"."))
+			}
+			for _, cd := range p.conds {
+				if cd.loop {
+					if q, isP := cd.v.(svPath); isP && cd.neg && isPrefix(q) {
+						return true
+					}
+					continue
+				}
+				b, isB := cd.v.(svBin)
+				if !isB || !cd.neg {
+					continue
+				}
+				switch b.op {
+				case token.NEQ, token.GTR:
+				default:
+					continue
+				}
+				if q, isP := b.x.(svPath); isP && b.op == token.NEQ {
+					if _, isNil := b.y.(svNil); isNil && isPrefix(q) {
+						return true
+					}
+				}
+				if lc, isCall := b.x.(svCall); isCall && lc.callee == nil && len(lc.args) == 1 && lc.call != nil && c.isBuiltin(lc.call, "len") {
+					if k, isK := b.y.(svConst); isK && k.v.String() == "0" {
+						if q, isP := lc.args[0].(svPath); isP && isPrefix(q) {
+							return true
+						}
+					}
+				}
+			}
+			return false
+		}
+		var missing []string
+		for _, k := range sortedKeys(positions) {
+			if !visited[k] && !emptyKnown(k) {
+				missing = append(missing, k)
+			}
+		}
+		if len(missing) > 0 {
+			var tests []string
+			for _, cd := range p.conds {
+				if cd.loop {
+					continue
+				}
+				t := svString(cd.v)
+				if cd.neg {
+					t = "!(" + t + ")"
+				}
+				if len(t) < 120 {
+					tests = append(tests, t)
+				}
+			}
+			if len(tests) > 6 {
+				tests = tests[len(tests)-6:]
+			}
+			why = fmt.Sprintf("a path of the schema expander returns with success without handing %s to a schema expander (last tests taken: %s): $refs below those positions stay in the output whenever that path is taken", strings.Join(missing, ", "), strings.Join(tests, "; "))
+			if len(p.effs) > 0 {
+				pos = p.effs[len(p.effs)-1].pos
+			}
+		}
+	}
+	c.ob(rule, "Schema:every-successful-path", pos, why == "", why)
 }
 
 // ---- containers ----
@@ -951,11 +1134,18 @@ func ruleContainers(c *Ctx) {
 				missing = true
 			}
 		}
+		simCov := c.holderCoverageSim(fam, h.fd, hp)
 		if missing {
-			for p, why := range c.holderCoverageSim(fam, h.fd, hp) {
+			for p, why := range simCov {
 				if _, has := covered[p]; !has {
 					covered[p] = why
 				}
+			}
+		}
+		// what the normal form knows about the conditions a visit is made under overrides a syntactic "covered"
+		for p, why := range simCov {
+			if strings.HasPrefix(why, "the element is handed to its expander only where") {
+				covered[p] = why
 			}
 		}
 		for _, p := range sortedKeys(positions) {
@@ -1779,7 +1969,80 @@ func (c *Ctx) holderCoverageSim(fam *expFamily, fd *ast.FuncDecl, hp types.Objec
 		return out
 	}
 	self, _ := c.Info.Defs[fd.Name].(*types.Func)
+	nVisits, nCond, condOf := map[string]int{}, map[string]int{}, map[string]string{}
+	skipWhy := map[string]string{}
+	defer func() {
+		// an element that is handed to its expander only under a test of the value of one of its own plain
+		// members (in != "body") is not expanded for the other values
+		for key, why := range out {
+			if why == "" && nVisits[key] > 0 && nCond[key] == nVisits[key] {
+				out[key] = "the element is handed to its expander only where " + condOf[key] + " holds: for other values of that member its $refs stay in the output (and a $ref that cannot be resolved goes unreported)"
+			}
+			if why == "" && skipWhy[key] != "" {
+				out[key] = "the element is handed to its expander only where " + skipWhy[key] + " does not hold (a path walks the collection and skips the element under that test of one of its own plain members): its $refs then stay in the output, and a $ref that cannot be resolved goes unreported"
+			}
+		}
+	}()
+	valueTestOf := func(p spath, ncond int, pos []string) string {
+		if ncond > len(p.conds) {
+			ncond = len(p.conds)
+		}
+		for _, cd := range p.conds[:ncond] {
+			if cd.loop {
+				continue
+			}
+			for _, v := range condAtoms(cd.v) {
+				q, ok := c.posBelow(fam, v, hp, 0)
+				if !ok || len(q) <= len(pos) {
+					continue
+				}
+				same := true
+				for i := range pos {
+					if q[i] != pos[i] {
+						same = false
+					}
+				}
+				if !same {
+					continue
+				}
+				t := c.simTypeAtPath(svPath{root: hp, steps: q})
+				if t == nil {
+					continue
+				}
+				if _, isBasic := t.Underlying().(*types.Basic); !isBasic {
+					continue
+				}
+				txt := svString(cd.v)
+				if cd.neg {
+					txt = "!(" + txt + ")"
+				}
+				return txt
+			}
+		}
+		return ""
+	}
 	for _, p := range paths {
+		visitedHere := map[string]bool{}
+		defer func(p spath, visitedHere map[string]bool) {
+			// collections this path walks without handing their element on
+			for _, cd := range p.conds {
+				if !cd.loop || cd.neg {
+					continue
+				}
+				cpos, ok := c.posBelow(fam, cd.v, hp, 0)
+				if !ok {
+					continue
+				}
+				epos := append(append([]string{}, cpos...), "[]")
+				key := joinSteps(epos)
+				if visitedHere[key] {
+					continue
+				}
+				if vt := valueTestOf(p, len(p.conds), epos); vt != "" {
+					skipWhy[key] = vt
+				}
+			}
+		}(p, visitedHere)
 		for i, e := range p.effs {
 			if e.kind != "call" {
 				continue
@@ -1806,6 +2069,20 @@ func (c *Ctx) holderCoverageSim(fam *expFamily, fd *ast.FuncDecl, hp types.Objec
 				}
 				key := joinSteps(pos)
 				why := ""
+				nVisits[key]++
+				visitedHere[key] = true
+				if os.Getenv("SIMDEBUG") == "2" {
+					fmt.Fprintf(os.Stderr, "visit %s in %s ncond=%d\n", key, c.funcName(fd), e.ncond)
+					for ci, cd := range p.conds {
+						if ci < e.ncond {
+							fmt.Fprintf(os.Stderr, "    cond neg=%v loop=%v %s\n", cd.neg, cd.loop, svString(cd.v))
+						}
+					}
+				}
+				if vt := valueTestOf(p, e.ncond, pos); vt != "" {
+					nCond[key]++
+					condOf[key] = vt
+				}
 				if viaCopy {
 					stored := false
 					for _, w := range p.effs[i+1:] {
@@ -1827,4 +2104,24 @@ func (c *Ctx) holderCoverageSim(fam *expFamily, fd *ast.FuncDecl, hp types.Objec
 		}
 	}
 	return out
+}
+
+// condAtoms flattens a condition into the values it compares: operands of && / || / !, with comparisons against
+// constants reduced to the other operand.
+func condAtoms(v sval) []sval {
+	switch x := v.(type) {
+	case svNot:
+		return condAtoms(x.x)
+	case svBin:
+		if x.op == token.LAND || x.op == token.LOR {
+			return append(condAtoms(x.x), condAtoms(x.y)...)
+		}
+		if _, isK := x.y.(svConst); isK {
+			return condAtoms(x.x)
+		}
+		if _, isK := x.x.(svConst); isK {
+			return condAtoms(x.y)
+		}
+	}
+	return []sval{v}
 }
